@@ -310,9 +310,19 @@ pub struct RemoveCompoundAssignment {
 }
 
 impl RemoveCompoundAssignment {
-    pub(crate) fn replace_compound_assignment(&self, statement: &mut Statement) {
-        let mut processor = Processor::default();
+    /// Lowers the compound assignments of `statement`. The temporaries are generated with the
+    /// caller's identifier tracker, so that they do not capture identifiers of the enclosing scopes.
+    pub(crate) fn replace_compound_assignment(
+        &self,
+        statement: &mut Statement,
+        identifier_tracker: &mut IdentifierTracker,
+    ) {
+        let mut processor = Processor {
+            identifier_tracker: std::mem::take(identifier_tracker),
+            ..Default::default()
+        };
         ScopeVisitor::visit_statement(statement, &mut processor);
+        *identifier_tracker = processor.identifier_tracker;
     }
 }
 
